@@ -179,7 +179,9 @@ thread_local! {
 }
 
 /// bytes the system adds around the user value of an index / sorted-index entry substate
-pub const INDEX_OVERHEAD: usize = 4;
+pub const INDEX_OVERHEAD: usize = 3;
+/// field size used when the first-use cost of a field write is measured (Limits.tla env.fieldCal)
+pub const FIELD_CAL: usize = 50;
 
 /// an SBOR byte-array key of exactly k encoded bytes (k >= 8) that was never used before
 fn fresh_key(k: usize) -> Vec<u8> {
@@ -512,7 +514,15 @@ pub fn calibrate(b: &mut Bench, fee: bool) -> Value {
     // (while the program runs / at commit)
     let mut first = serde_json::Map::new();
     let mut first_commit = serde_json::Map::new();
-    for (kind, op, own) in [("ret", Op::Call(40), 0i64), ("emit", Op::Emit(10), 0), ("alloc", Op::Alloc(40), 0), ("write", Op::Write(k0, v0), w2 as i64 - w1 as i64)] {
+    // own cost of an insert = what a second identical insert adds (index: key + value; field: nothing)
+    let i1 = min_limit(b, &base, "track", &[Op::IWrite(k0, v0)], fee, 0, hi, &succ);
+    let i2 = min_limit(b, &base, "track", &[Op::IWrite(k0, v0), Op::IWrite(k0, v0)], fee, 0, hi, &succ);
+    let s1 = min_limit(b, &base, "track", &[Op::SWrite(k0, v0)], fee, 0, hi, &succ);
+    let s2 = min_limit(b, &base, "track", &[Op::SWrite(k0, v0), Op::SWrite(k0, v0)], fee, 0, hi, &succ);
+    m.insert("fieldCal".into(), json!(FIELD_CAL));
+    for (kind, op, own) in [("ret", Op::Call(40), 0i64), ("emit", Op::Emit(10), 0), ("alloc", Op::Alloc(40), 0), ("write", Op::Write(k0, v0), w2 as i64 - w1 as i64),
+                            ("iwrite", Op::IWrite(k0, v0), i2 as i64 - i1 as i64), ("swrite", Op::SWrite(k0, v0), s2 as i64 - s1 as i64),
+                            ("fwrite", Op::FWrite(FIELD_CAL), 0)] {
         let t = min_limit(b, &base, "track", &[op.clone()], fee, 0, hi, &succ);
         first_commit.insert(kind.into(), json!(t as i64 - track_base as i64 - own));
         let t = min_limit(b, &base, "track", &[op], fee, 0, hi, &fin);
